@@ -37,8 +37,8 @@ CHECKS = {
         design="6/C02",
     ),
     "C03": dict(
-        text="Machine-checked Coq theorems about Model/Solver.v: on the full periodic domain the horizontal sum of the flux at every level is nx*ny*Re(q00) with q00 the source mean (dispersion) or 1/(nx*ny) (footprint, hence unit mass), and that of the concentration nx*ny*Re(background - q00*resistance) with the resistance the trapezoid the code accumulates; proved from orthogonality of the roots of unity. The halo == explicit padding clause is carried by the model's construction, the correspondence and the pad/crop oracle (not a theorem yet).",
-        note="Partial: 'halo equals zero-padding + crop' is not proved as a theorem; trapezoid-vs-integral is outside the statement. Exact arithmetic (Laws O incl. primitivity of roots of unity, proved for the complex instance ROps).",
+        text="Machine-checked Coq theorems about Model/Solver.v: on the full periodic domain the horizontal sum of the flux at every level is nx*ny*Re(q00) with q00 the source mean (dispersion) or 1/(nx*ny) (footprint, hence unit mass), and that of the concentration nx*ny*Re(background - q00*resistance) with the resistance the trapezoid the code accumulates; proved from orthogonality of the roots of unity. A halo of any width equals zero-padding the source by int(halo/dx), int(halo/dy) cells, enlarging the domain, solving with halo=0 and cropping (cell by cell, every level, both fields).",
+        note="Trapezoid-vs-integral is outside the statement; the halo theorem is for footprint mode and for dispersion mode with meas_pt at the origin. Exact arithmetic (Laws O incl. primitivity of roots of unity, proved for the complex instance ROps).",
         technique="Coq proof (geometric sums / orthogonality over the frequency-set representation) + float correspondence + slice translator/bridge",
         design="6/C03",
     ),
